@@ -222,6 +222,16 @@ func (rw *remoteUnit) startRemoteUnit(ctx context.Context, conn net.Conn, reader
 	return nil
 }
 
+// afterErrorPrefix returns what follows "ERROR" and its separator in a reply of the remote node, which may be
+// shorter than the prefix.
+func afterErrorPrefix(reply string) string {
+	if len(reply) <= 6 {
+		return ""
+	}
+
+	return reply[6:]
+}
+
 // cancelOrReleaseRemoteUnit makes a single attempt to cancel or release a remote unit.
 func (rw *remoteUnit) cancelOrReleaseRemoteUnit(ctx context.Context, conn net.Conn, reader *bufio.Reader,
 	release bool,
@@ -258,8 +268,8 @@ func (rw *remoteUnit) cancelOrReleaseRemoteUnit(ctx context.Context, conn net.Co
 	if err != nil {
 		return fmt.Errorf("read error reading from %s: %s", red.RemoteNode, err)
 	}
-	if response[:5] == "ERROR" {
-		return fmt.Errorf("error cancelling remote unit: %s", response[6:])
+	if strings.HasPrefix(response, "ERROR") {
+		return fmt.Errorf("error cancelling remote unit: %s", afterErrorPrefix(response))
 	}
 
 	return nil
@@ -319,7 +329,7 @@ func (rw *remoteUnit) monitorRemoteStatus(mw *utils.JobContext, forRelease bool)
 
 			continue
 		}
-		if status[:5] == "ERROR" {
+		if strings.HasPrefix(status, "ERROR") {
 			if strings.Contains(status, "unknown work unit") {
 				if !forRelease {
 					rw.GetWorkceptor().nc.GetLogger().Debug("Work unit %s on node %s is gone.\n", remoteUnitID, remoteNode)
@@ -331,7 +341,7 @@ func (rw *remoteUnit) monitorRemoteStatus(mw *utils.JobContext, forRelease bool)
 
 				return
 			}
-			rw.GetWorkceptor().nc.GetLogger().Error("Remote error: %s\n", strings.TrimRight(status[6:], "\n"))
+			rw.GetWorkceptor().nc.GetLogger().Error("Remote error: %s\n", strings.TrimRight(afterErrorPrefix(status), "\n"))
 
 			return
 		}
